@@ -156,7 +156,7 @@ func c40Snapshot(e *venv, names *c40Names, snid, src string, contents map[string
 			return err
 		}
 		out.root = *sn.Tree
-		sub, err := data.FindTreeDirectory(ctx, repo, sn.Tree, filepath.ToSlash(src))
+		sub, err := data.FindTreeDirectory(ctx, repo, sn.Tree, "src")
 		if err != nil {
 			return err
 		}
@@ -384,14 +384,24 @@ func c40Case(c *vctx, name string, rng *vrng, variant int) error {
 	if err := c40Populate(rng, src, 2, "a"); err != nil {
 		return err
 	}
+	// back up the relative target "src" from inside the scratch directory: the snapshot root then holds
+	// only src, not the ancestors /verif/work/... whose mtimes other processes keep changing
+	if wd, err := os.Getwd(); err == nil {
+		defer func() { _ = os.Chdir(wd) }()
+	}
+	if err := os.Chdir(e.base); err != nil {
+		return err
+	}
+	srcAbs := src
+	_ = srcAbs
 	// two backups so that the data blobs of the parent live in more than one pack
-	if _, err := c40Backup(e, src); err != nil {
+	if _, err := c40Backup(e, "src"); err != nil {
 		return fmt.Errorf("C40 first backup: %w", err)
 	}
 	if err := c40Populate(rng, src, 1, "c"); err != nil {
 		return err
 	}
-	parentID, err := c40Backup(e, src)
+	parentID, err := c40Backup(e, "src")
 	if err != nil {
 		return fmt.Errorf("C40 parent backup: %w", err)
 	}
@@ -450,7 +460,7 @@ func c40Case(c *vctx, name string, rng *vrng, variant int) error {
 	if ic {
 		args = append(args, "--ignore-ctime")
 	}
-	incrID, err := c40Backup(e, append(args, src)...)
+	incrID, err := c40Backup(e, append(args, "src")...)
 	if err != nil {
 		return fmt.Errorf("C40 incremental backup: %w", err)
 	}
@@ -458,7 +468,7 @@ func c40Case(c *vctx, name string, rng *vrng, variant int) error {
 	if err != nil {
 		return err
 	}
-	fullID, err := c40Backup(e, "--force", src)
+	fullID, err := c40Backup(e, "--force", "src")
 	if err != nil {
 		return fmt.Errorf("C40 forced backup: %w", err)
 	}
@@ -535,13 +545,13 @@ func c40Case(c *vctx, name string, rng *vrng, variant int) error {
 		if force {
 			a = append(a, "--force")
 		}
-		_, _, err := e.cli(append(append([]string{"backup"}, a...), src)...)
+		_, _, err := e.cli(append(append([]string{"backup"}, a...), "src")...)
 		if err != nil {
 			return fmt.Errorf("C40 skip backup: %w", err)
 		}
 		saved := c40SnapshotCount(e) > n0
 		// the tree of the current source, from a forced backup
-		curID, err := c40Backup(e, "--force", src)
+		curID, err := c40Backup(e, "--force", "src")
 		if err != nil {
 			return err
 		}
